@@ -59,6 +59,7 @@ func seedFor(k int) []byte {
 
 // wenv is one wallet directory + fake backend; the wallet can be stopped and reopened.
 type wenv struct {
+	net     *chaincfg.Params // chain parameters of the wallet and of the fake backend (default: SimNet)
 	dir     string
 	fc      *fakeChain
 	loader  *wallet.Loader
@@ -71,13 +72,18 @@ type wenv struct {
 	attemptBase int64
 }
 
-func newEnv() (*wenv, error) {
+func newEnv() (*wenv, error) { return newEnvNet(params) }
+
+// newEnvNet: a wallet + fake backend on the given chain parameters.  On a production network (MainNet, TestNet3)
+// syncWithChain first waits until the backend reports itself current (waitUntilBackendSynced polls IsCurrent once a
+// second); SimNet / RegTest skip the wait.
+func newEnvNet(net *chaincfg.Params) (*wenv, error) {
 	fastKeys()
 	dir, err := os.MkdirTemp("", "wcsync")
 	if err != nil {
 		return nil, err
 	}
-	return &wenv{dir: dir, fc: newFakeChain(params)}, nil
+	return &wenv{net: net, dir: dir, fc: newFakeChain(net)}, nil
 }
 
 func (e *wenv) close() {
@@ -90,7 +96,7 @@ func (e *wenv) newLoader(recW uint32) *wallet.Loader {
 	if e.retry != 0 {
 		retry = e.retry
 	}
-	return wallet.NewLoader(params, e.dir, true, 10*time.Second, recW,
+	return wallet.NewLoader(e.net, e.dir, true, 10*time.Second, recW,
 		wallet.WithWalletSyncRetryInterval(retry))
 }
 
